@@ -42,6 +42,31 @@ def round8(f):
         return +decimal.Decimal(f)
 
 
+
+class _section:
+    """One codec's generator: an exception raised INSIDE fontTools while encoding a value of the codec's domain or
+    decoding what the encoder emitted is the codec refusing it - recorded as one `raised` case (TLC rejects it);
+    an exception raised by harness code propagates (machinery failure)."""
+
+    def __init__(self, out, name):
+        self.out, self.name = out, name
+
+    def __enter__(self):
+        return self
+
+    def __exit__(self, et, ev, tb):
+        if et is None or not issubclass(et, Exception) or isinstance(ev, MachineryError):
+            return False
+        import traceback
+
+        frames = traceback.extract_tb(tb)
+        if not frames or "/fontTools/" not in frames[-1].filename:
+            return False
+        self.out.append({"k": "raised", "codec": self.name, "err": "%s: %s" % (et.__name__, str(ev)[:120]),
+                         "where": "%s:%d" % (frames[-1].filename.split("/fontTools/")[-1], frames[-1].lineno)})
+        return True
+
+
 def gen_cases(chk):
     from fontTools.misc import psCharStrings as ps
     from fontTools.misc import fixedTools, roundTools, eexec, sstruct, timeTools
@@ -56,287 +81,301 @@ def gen_cases(chk):
     thorough = chk.tier == "thorough"
     out = []
 
-    # ---- CFF / T1 / T2 integer operands ---------------------------------
-    encs = {"cff": ps.encodeIntCFF, "t1": ps.encodeIntT1, "t2": ps.encodeIntT2}
-    tables = {"cff": ps.cffDictOperandEncoding, "t1": ps.t1OperandEncoding, "t2": ps.t2OperandEncoding}
-    span = 40000 if thorough else 1300
-    for fmt in ("cff", "t1", "t2"):
-        vals = set(range(-span, span + 1))
-        vals |= {32767, 32768, -32768, -32769, 32766, -32767, 65535, 65536, -65536}
-        vals |= {2**31 - 1, -(2**31), 2**31 - 2, -(2**31) + 1, 2**24, -(2**24), 2**16 + 1}
-        vals |= {rng.randrange(-(2**31), 2**31) for _ in range(300)}
-        if fmt == "t2":
-            vals = {v for v in vals if -32768 <= v <= 32767}  # T2 ints are 16-bit
-        for v in sorted(vals):
-            b = encs[fmt](v)
-            dec, idx = tables[fmt][b[0]](None, b[0], b, 1)
-            out.append({"k": "int", "fmt": fmt, "v": v, "b": list(b), "dec": dec if idx == len(b) else None})
+    with _section(out, 'CFF / T1 / T2 integer operands'):
+        # ---- CFF / T1 / T2 integer operands ---------------------------------
+        encs = {"cff": ps.encodeIntCFF, "t1": ps.encodeIntT1, "t2": ps.encodeIntT2}
+        tables = {"cff": ps.cffDictOperandEncoding, "t1": ps.t1OperandEncoding, "t2": ps.t2OperandEncoding}
+        span = 40000 if thorough else 1300
+        for fmt in ("cff", "t1", "t2"):
+            vals = set(range(-span, span + 1))
+            vals |= {32767, 32768, -32768, -32769, 32766, -32767, 65535, 65536, -65536}
+            vals |= {2**31 - 1, -(2**31), 2**31 - 2, -(2**31) + 1, 2**24, -(2**24), 2**16 + 1}
+            vals |= {rng.randrange(-(2**31), 2**31) for _ in range(300)}
+            if fmt == "t2":
+                vals = {v for v in vals if -32768 <= v <= 32767}  # T2 ints are 16-bit
+            for v in sorted(vals):
+                b = encs[fmt](v)
+                dec, idx = tables[fmt][b[0]](None, b[0], b, 1)
+                out.append({"k": "int", "fmt": fmt, "v": v, "b": list(b), "dec": dec if idx == len(b) else None})
 
-    # T2 ints through the charstring compiler/decompiler (public path)
-    for v in list(range(-1200, 1201, 7)) + [-32768, 32767, 107, 108, -107, -108, 1131, 1132, -1131, -1132]:
-        cs = ps.T2CharString(program=[v, "rmoveto"])
-        cs.compile()
-        bc = cs.bytecode[:-1]
-        cs2 = ps.T2CharString(bytecode=cs.bytecode)
-        cs2.decompile()
-        out.append({"k": "int", "fmt": "t2", "v": v, "b": list(bc), "dec": cs2.program[0]})
+        # T2 ints through the charstring compiler/decompiler (public path)
+        for v in list(range(-1200, 1201, 7)) + [-32768, 32767, 107, 108, -107, -108, 1131, 1132, -1131, -1132]:
+            cs = ps.T2CharString(program=[v, "rmoveto"])
+            cs.compile()
+            bc = cs.bytecode[:-1]
+            cs2 = ps.T2CharString(bytecode=cs.bytecode)
+            cs2.decompile()
+            out.append({"k": "int", "fmt": "t2", "v": v, "b": list(bc), "dec": cs2.program[0]})
 
-    # ---- T2 16.16 fixed operands ---------------------------------------
-    fxs = set(k * 65536 for k in range(-1200, 1201, 3)) | {1, -1, 0x7FFFFFFF, -0x7FFFFFFF, -0x80000000, 0x8000, -0x8000, 0xFFFF, 0x10001, -0x10001}
-    fxs |= {32767 * 65536, -32768 * 65536, 32767 * 65536 + 1}
-    fxs |= {rng.randrange(-(2**31), 2**31) for _ in range(3000 if thorough else 600)}
-    fxs |= {(1 << i) for i in range(31)} | {-(1 << i) for i in range(32)}
-    for fx in sorted(fxs):
-        f = fx / 65536
-        b = ps.encodeFixed(f)
-        dec, idx = ps.t2OperandEncoding[b[0]](None, b[0], b, 1)
-        out.append({"k": "fixed", "fx": fx, "b": list(b), "decfx": fixedTools.floatToFixed(dec, 16) if idx == len(b) else None})
+    with _section(out, 'T2 16.16 fixed operands'):
+        # ---- T2 16.16 fixed operands ---------------------------------------
+        fxs = set(k * 65536 for k in range(-1200, 1201, 3)) | {1, -1, 0x7FFFFFFF, -0x7FFFFFFF, -0x80000000, 0x8000, -0x8000, 0xFFFF, 0x10001, -0x10001}
+        fxs |= {32767 * 65536, -32768 * 65536, 32767 * 65536 + 1}
+        fxs |= {rng.randrange(-(2**31), 2**31) for _ in range(3000 if thorough else 600)}
+        fxs |= {(1 << i) for i in range(31)} | {-(1 << i) for i in range(32)}
+        for fx in sorted(fxs):
+            f = fx / 65536
+            b = ps.encodeFixed(f)
+            dec, idx = ps.t2OperandEncoding[b[0]](None, b[0], b, 1)
+            out.append({"k": "fixed", "fx": fx, "b": list(b), "decfx": fixedTools.floatToFixed(dec, 16) if idx == len(b) else None})
 
-    # ---- CFF DICT real operands ------------------------------------------
-    reals = []
-    step = 1 if thorough else 7
-    for m in range(-999, 1000, step):
-        for e in range(-6, 7):
-            reals.append(float(decimal.Decimal(m).scaleb(e)))
-    reals += [1e-05, 123000.0, 0.1, -0.5, 0.5, 0.000012345678, 1e10, 1.5e20, -1e-9, 100.0, 1000.0, 12345678.0,
-              123456789.0, 0.001, -0.001, 1e-300, 1e300, 99999999.5, 0.05, -0.05, 1200000.0, 0.00001234, 3.14159265358979]
-    for _ in range(4000 if thorough else 800):
-        reals.append(rng.choice([1, -1]) * rng.random() * 10 ** rng.randint(-12, 12))
-    for _ in range(500):
-        reals.append(struct.unpack(">d", struct.pack(">Q", rng.getrandbits(64) & 0x7FEFFFFFFFFFFFFF | (rng.getrandbits(1) << 63)))[0])
-    for f in reals:
-        if f != f or f in (float("inf"), float("-inf")):
-            continue
-        b = ps.encodeFloat(f)
-        m, e = norm_dec(round8(f))
-        dec, idx = ps.cffDictOperandEncoding[b[0]](None, b[0], b, 1)
-        dm, de = norm_dec(round8(dec))
-        if abs(m) >= 10**8 or abs(e) > 400:
-            raise MachineryError("real normalisation out of range")
-        out.append({"k": "real", "m": m, "e": e, "b": list(b), "decm": dm if idx == len(b) else None, "dece": de})
-
-    # ---- UIntBase128, 255UInt16, uint32var ---------------------------------
-    vals = set(range(0, 400)) | {2**32 - 1, 2**32 - 2, 2**31, 2**31 - 1}
-    for k in range(1, 5):
-        vals |= {2 ** (7 * k) - 1, 2 ** (7 * k), 2 ** (7 * k) + 1}
-    vals |= {rng.getrandbits(rng.randint(1, 32)) for _ in range(4000 if thorough else 800)}
-    for v in sorted(vals):
-        b = woff2.packBase128(v)
-        dv, rest = woff2.unpackBase128(b + b"\x55")
-        hi, lo = limbs(v)
-        dhi, dlo = limbs(dv)
-        out.append({"k": "b128", "hi": hi, "lo": lo, "b": list(b), "dhi": dhi if rest == b"\x55" else None, "dlo": dlo})
-    rng255 = range(0, 65536) if thorough else list(range(0, 1100)) + list(range(1100, 65536, 13)) + [65535, 65534]
-    for v in rng255:
-        b = woff2.pack255UShort(v)
-        dv, rest = woff2.unpack255UShort(b + b"\x55")
-        out.append({"k": "u255", "v": v, "b": list(b), "dec": dv if rest == b"\x55" else None})
-    vals = set(range(0, 300)) | {2**32 - 1, 2**32 - 2}
-    for edge in (0x80, 0x4000, 0x200000, 0x10000000):
-        vals |= {edge - 1, edge, edge + 1}
-    vals |= {rng.getrandbits(rng.randint(1, 32)) for _ in range(4000 if thorough else 800)}
-    for v in sorted(vals):
-        b = otTables._write_uint32var(v)
-        dv, idx = otTables._read_uint32var(b + b"\x55", 0)
-        hi, lo = limbs(v)
-        dhi, dlo = limbs(dv)
-        out.append({"k": "u32var", "hi": hi, "lo": lo, "b": list(b), "dhi": dhi if idx == len(b) else None, "dlo": dlo})
-
-    # ---- packed point numbers ---------------------------------------------
-    psets = [[], [0], [65535], [0, 65535], list(range(127)), list(range(128)), list(range(129)), list(range(0, 256 * 130, 256)),
-             list(range(0, 255 * 130, 255)), [0, 255], [0, 256], [0, 255, 511], [0, 256, 511], [5, 260, 261, 600, 601, 857]]
-    psets += [list(range(k)) for k in (1, 2, 3, 126, 130, 255, 256, 257, 300)]
-    for _ in range(1500 if thorough else 300):
-        n = rng.choice([1, 2, 3, 5, 10, 50, 127, 128, 129, 200, 300])
-        kind = rng.random()
-        if kind < 0.3:
-            s = rng.sample(range(0, 400), min(n, 400))
-        elif kind < 0.6:
-            s = rng.sample(range(0, 65536), n)
-        else:  # clustered, mixing byte and word gaps
-            s, cur = [], 0
-            for _i in range(n):
-                cur += rng.choice([1, 1, 2, 3, 254, 255, 256, 257, 300]) if cur < 60000 else 1
-                s.append(cur)
-            s = [x for x in s if x < 65536]
-        psets.append(sorted(set(s)))
-    for s in psets:
-        b = bytes(TupleVariation.compilePoints(set(s)))
-        dec, pos = TupleVariation.decompilePoints_(70000, b + b"\x55", 0, "gvar")
-        dec = [] if (not s) else list(dec)
-        out.append({"k": "points", "pts": s, "b": list(b), "dec": dec if pos == len(b) else None})
-
-    # ---- packed deltas ----------------------------------------------------
-    dsets = []
-    for kind in ([0], [5, -5, 127, -128], [300, -300, 32767, -32768], [40000, -40000, 2**31 - 1, -(2**31)]):
-        for n in (1, 2, 63, 64, 65, 128, 129):
-            dsets.append([kind[i % len(kind)] for i in range(n)])
-    for _ in range(2500 if thorough else 500):
-        ds = []
-        for _r in range(rng.randint(1, 6)):
-            kind = rng.choice("zbwl")
-            n = rng.choice([1, 1, 2, 3, 4, 10, 63, 64, 65])
-            for _i in range(n):
-                ds.append({"z": 0, "b": rng.randint(-128, 127), "w": rng.randint(-32768, 32767),
-                           "l": rng.randint(-(2**31), 2**31 - 1)}[kind])
-        dsets.append(ds)
-    for ds in dsets:
-        for opt in (True, False):
-            b = bytes(TupleVariation.compileDeltaValues_(ds, optimizeSize=opt))
-            dec, pos = TupleVariation.decompileDeltas_(len(ds), b, 0)
-            out.append({"k": "deltas", "ds": ds, "b": list(b), "dec": list(dec) if pos == len(b) else None, "opt": opt})
-
-    # ---- eexec / charstring encryption ---------------------------------------
-    alpha = [0, 1, 127, 128, 255]
-    strs = [b""] + [bytes([a]) for a in alpha] + [bytes([a, b_]) for a in alpha for b_ in alpha]
-    strs += [bytes([a, b_, c]) for a in alpha for b_ in alpha for c in alpha]
-    strs += [bytes(rng.getrandbits(8) for _ in range(rng.randint(4, 40))) for _ in range(600 if thorough else 150)]
-    for s in strs:
-        for key in (4330, 55665, 0, 65535):
-            c, r2 = eexec.encrypt(s, key)
-            dp, dr = eexec.decrypt(c, key)
-            out.append({"k": "eexec", "p": list(s), "r": key, "c": list(c), "r2": r2, "dp": list(dp), "dr": dr})
-    for s in strs[:200]:
-        h = eexec.hexString(s)
-        out.append({"k": "hex", "b": list(s), "s": codes(h), "back": list(eexec.deHexString(h))})
-
-    # ---- fixed point <-> shortest decimal text --------------------------------
-    f14 = range(-32768, 32768) if thorough else sorted(set(range(-32768, 32768, 5)) | set(range(-600, 600)) | {32767, -32768, 16384, -16384, 8192})
-    for fx in f14:
-        s = fixedTools.fixedToStr(fx, 14)
-        out.append({"k": "fixstr", "fx": fx, "p": 14, "s": codes(s), "back": fixedTools.strToFixed(s, 14)})
-    f16 = {0, 1, -1, 65536, -65536, 0x7FFFFFFF, -0x7FFFFFFF, -0x80000000, 32768, -32768, 98304}
-    f16 |= {(1 << i) for i in range(31)} | {-(1 << i) for i in range(32)} | {(1 << i) - 1 for i in range(1, 31)}
-    for d in range(1, 100):  # values next to decimal ties
-        f16 |= {round(d * 65536 / 100) + k for k in (-1, 0, 1)}
-    f16 |= {rng.randrange(-(2**31), 2**31) for _ in range(20000 if thorough else 4000)}
-    f16 |= {rng.randrange(-(2**18), 2**18) for _ in range(20000 if thorough else 4000)}
-    for fx in sorted(f16):
-        s = fixedTools.fixedToStr(fx, 16)
-        out.append({"k": "fixstr", "fx": fx, "p": 16, "s": codes(s), "back": fixedTools.strToFixed(s, 16)})
-    for p in (6, 2):  # F26Dot6-style and Fixed 30.2-style precisions
-        for fx in list(range(-300, 300)) + [rng.randrange(-(2**20), 2**20) for _ in range(500)]:
-            s = fixedTools.fixedToStr(fx, p)
-            out.append({"k": "fixstr", "fx": fx, "p": p, "s": codes(s), "back": fixedTools.strToFixed(s, p)})
-
-    # ---- otRound / floatToFixed ---------------------------------------------
-    for d in (1, 2, 4, 8, 3, 5):
-        for n in range(-60, 61):
-            out.append({"k": "otround", "n": n, "d": d, "v": roundTools.otRound(n / d)})
-    for p in (14, 16):
-        for n in range(-40, 41):
-            for d in (1, 2, 4, 8, 16):  # exactly representable inputs n/d
-                out.append({"k": "otround", "n": n * (1 << p), "d": d, "v": fixedTools.floatToFixed(n / d, p)})
-        # half-ulp ties: (2k+1)/2^(p+1)
-        for k2 in range(-50, 51):
-            out.append({"k": "otround", "n": 2 * k2 + 1, "d": 2, "v": fixedTools.floatToFixed((2 * k2 + 1) / (1 << (p + 1)), p)})
-
-    # ---- timestamps -------------------------------------------------------
-    tvals = {2082844800, 2082844801, 2082844799 + 86400, 2**32 - 1, 3600000000, 3786912000}
-    tvals |= {rng.randrange(2082844800, 2**32) for _ in range(3000 if thorough else 700)}
-    # leap-day and year boundaries
-    import calendar
-    for y in (1972, 1999, 2000, 2001, 2024, 2036, 2038, 2039):
-        for mo, dd in ((1, 1), (2, 28), (2, 29), (3, 1), (12, 31)):
-            try:
-                tvals.add(calendar.timegm((y, mo, dd, 0, 0, 0)) - timeTools.epoch_diff)
-                tvals.add(calendar.timegm((y, mo, dd, 23, 59, 59)) - timeTools.epoch_diff)
-            except ValueError:
-                pass
-    # Domain: values from 1970-01-01 on.  Earlier LONGDATETIME values are treated by the
-    # library as bogus by design (head.decompile re-bases them as Unix timestamps and
-    # timestampToString clamps at the Unix epoch), so they are outside this codec's domain.
-    for v in sorted(tvals):
-        s = timeTools.timestampToString(v)
-        try:
-            back = timeTools.timestampFromString(s)
-        except Exception:
-            back = -1
-        out.append({"k": "time", "days": v // 86400, "secs": v % 86400, "s": codes(s),
-                    "bdays": back // 86400, "bsecs": back % 86400})
-
-    # ---- table tags ---------------------------------------------------------
-    alpha = "aZ0 /_-~" if not thorough else "aZz09 /_-~(@"
-    tags = set()
-    for a in alpha:
-        for b_ in alpha:
-            for c in alpha:
-                for d in alpha:
-                    tags.add(a + b_ + c + d)
-    tags |= {"glyf", "cvt ", "OS/2", "CFF ", "SVG ", "GSUB", "head", "CFF2", "fpgm", "TSI0", "Zapf", "a   ", "A   ", "9   ", "    "}
-    for _ in range(2000 if thorough else 500):
-        tags.add("".join(chr(rng.randint(0x20, 0x7E)) for _ in range(4)))
-    for t in sorted(tags):
-        ident = ttFont.tagToIdentifier(t)
-        try:
-            back = str(ttFont.identifierToTag(ident))
-        except Exception:
-            back = ""
-        out.append({"k": "tag", "tag": codes(t), "ident": codes(ident), "back": codes(back)})
-        x = ttFont.tagToXML(t)
-        try:
-            backx = str(ttFont.xmlToTag(x))
-        except Exception:
-            backx = ""
-        out.append({"k": "xmltag", "tag": codes(t), "xml": codes(x), "back": codes(backx)})
-
-    # ---- IFT sparse bit set -------------------------------------------------
-    sets = [[], [0], [40], list(range(41)), list(range(0, 41, 2)), [0, 1, 2, 3], list(range(8)), list(range(32)), list(range(64)),
-            [31, 32], [7, 8], [1023], list(range(1024)), [0, 1023], list(range(16, 32)), [65535], [2**20], list(range(256, 512))]
-    for _ in range(3000 if thorough else 600):
-        universe = rng.choice([8, 16, 41, 41, 41, 64, 300, 5000])
-        dens = rng.random()
-        s = [v for v in range(universe) if rng.random() < dens] if universe <= 300 else rng.sample(range(universe), rng.randint(1, 40))
-        sets.append(sorted(s))
-    for s in sets:
-        b = sbs.encode(s)
-        dset, used = sbs.decode(b + b"\x55\x55\x55\x55"[: 0])
-        out.append({"k": "sbs", "vals": s, "b": list(b), "dec": sorted(dset) if used == len(b) else None})
-
-    # ---- sstruct ------------------------------------------------------------
-    fmt = """
-        > # big endian
-        a: b
-        bb: B
-        x
-        c: h
-        d: H
-        e: l
-        f: L
-        g: 16.16F
-        h: 2.14F
-    """
-    tfmt = ["b", "B", "x", "h", "H", "l", "L", "l", "h"]
-    for _ in range(600 if thorough else 150):
-        g = rng.randrange(-(2**31), 2**31)
-        h = rng.randrange(-32768, 32768)
-        f_ = rng.getrandbits(32)
-        obj = {"a": rng.randint(-128, 127), "bb": rng.randint(0, 255), "c": rng.randint(-32768, 32767), "d": rng.randint(0, 65535),
-               "e": rng.randrange(-(2**31), 2**31), "f": f_, "g": g / 65536, "h": h / 16384}
-        b = sstruct.pack(fmt, obj)
-        back = sstruct.unpack(fmt, b)
-        vals = [obj["a"], obj["bb"], obj["c"], obj["d"], obj["e"], list(limbs(f_)), g, h]
-        dec = [back["a"], back["bb"], back["c"], back["d"], back["e"], list(limbs(back["f"])),
-               fixedTools.floatToFixed(back["g"], 16), fixedTools.floatToFixed(back["h"], 14)]
-        out.append({"k": "struct", "fmt": tfmt, "vals": vals, "b": list(b), "dec": dec})
-
-    # ---- Adobe glyph list ----------------------------------------------------
-    uvs = sorted(agl.UV2AGL)
-    for u in (uvs if thorough else uvs[:: 3]):
-        name = agl.UV2AGL[u]
-        r = agl.toUnicode(name)
-        out.append({"k": "agl", "u": u, "name": codes("x"), "back": ord(r) if len(r) == 1 else -1})
-    for u in [0x20, 0x41, 0xD7FF, 0xE000, 0xFFFF, 0x1234, 0xABCD] + [rng.randrange(0, 0xD800) for _ in range(100)]:
-        name = "uni%04X" % u
-        r = agl.toUnicode(name)
-        out.append({"k": "agl", "u": u, "name": codes(name), "back": ord(r) if len(r) == 1 else -1})
-    for u in [0x10000, 0x10FFFF, 0x1F600, 0xE000, 0xABCD, 0x0041] + [rng.randrange(0x10000, 0x110000) for _ in range(100)]:
-        for f_ in ("u%04X", "u%05X", "u%06X"):
-            name = f_ % u
-            if len(name) > 7:
+    with _section(out, 'CFF DICT real operands'):
+        # ---- CFF DICT real operands ------------------------------------------
+        reals = []
+        step = 1 if thorough else 7
+        for m in range(-999, 1000, step):
+            for e in range(-6, 7):
+                reals.append(float(decimal.Decimal(m).scaleb(e)))
+        reals += [1e-05, 123000.0, 0.1, -0.5, 0.5, 0.000012345678, 1e10, 1.5e20, -1e-9, 100.0, 1000.0, 12345678.0,
+                  123456789.0, 0.001, -0.001, 1e-300, 1e300, 99999999.5, 0.05, -0.05, 1200000.0, 0.00001234, 3.14159265358979]
+        for _ in range(4000 if thorough else 800):
+            reals.append(rng.choice([1, -1]) * rng.random() * 10 ** rng.randint(-12, 12))
+        for _ in range(500):
+            reals.append(struct.unpack(">d", struct.pack(">Q", rng.getrandbits(64) & 0x7FEFFFFFFFFFFFFF | (rng.getrandbits(1) << 63)))[0])
+        for f in reals:
+            if f != f or f in (float("inf"), float("-inf")):
                 continue
+            b = ps.encodeFloat(f)
+            m, e = norm_dec(round8(f))
+            dec, idx = ps.cffDictOperandEncoding[b[0]](None, b[0], b, 1)
+            dm, de = norm_dec(round8(dec))
+            if abs(m) >= 10**8 or abs(e) > 400:
+                raise MachineryError("real normalisation out of range")
+            out.append({"k": "real", "m": m, "e": e, "b": list(b), "decm": dm if idx == len(b) else None, "dece": de})
+
+    with _section(out, 'UIntBase128, 255UInt16, uint32var'):
+        # ---- UIntBase128, 255UInt16, uint32var ---------------------------------
+        vals = set(range(0, 400)) | {2**32 - 1, 2**32 - 2, 2**31, 2**31 - 1}
+        for k in range(1, 5):
+            vals |= {2 ** (7 * k) - 1, 2 ** (7 * k), 2 ** (7 * k) + 1}
+        vals |= {rng.getrandbits(rng.randint(1, 32)) for _ in range(4000 if thorough else 800)}
+        for v in sorted(vals):
+            b = woff2.packBase128(v)
+            dv, rest = woff2.unpackBase128(b + b"\x55")
+            hi, lo = limbs(v)
+            dhi, dlo = limbs(dv)
+            out.append({"k": "b128", "hi": hi, "lo": lo, "b": list(b), "dhi": dhi if rest == b"\x55" else None, "dlo": dlo})
+        rng255 = range(0, 65536) if thorough else list(range(0, 1100)) + list(range(1100, 65536, 13)) + [65535, 65534]
+        for v in rng255:
+            b = woff2.pack255UShort(v)
+            dv, rest = woff2.unpack255UShort(b + b"\x55")
+            out.append({"k": "u255", "v": v, "b": list(b), "dec": dv if rest == b"\x55" else None})
+        vals = set(range(0, 300)) | {2**32 - 1, 2**32 - 2}
+        for edge in (0x80, 0x4000, 0x200000, 0x10000000):
+            vals |= {edge - 1, edge, edge + 1}
+        vals |= {rng.getrandbits(rng.randint(1, 32)) for _ in range(4000 if thorough else 800)}
+        for v in sorted(vals):
+            b = otTables._write_uint32var(v)
+            dv, idx = otTables._read_uint32var(b + b"\x55", 0)
+            hi, lo = limbs(v)
+            dhi, dlo = limbs(dv)
+            out.append({"k": "u32var", "hi": hi, "lo": lo, "b": list(b), "dhi": dhi if idx == len(b) else None, "dlo": dlo})
+
+    with _section(out, 'packed point numbers'):
+        # ---- packed point numbers ---------------------------------------------
+        psets = [[], [0], [65535], [0, 65535], list(range(127)), list(range(128)), list(range(129)), list(range(0, 256 * 130, 256)),
+                 list(range(0, 255 * 130, 255)), [0, 255], [0, 256], [0, 255, 511], [0, 256, 511], [5, 260, 261, 600, 601, 857]]
+        psets += [list(range(k)) for k in (1, 2, 3, 126, 130, 255, 256, 257, 300)]
+        for _ in range(1500 if thorough else 300):
+            n = rng.choice([1, 2, 3, 5, 10, 50, 127, 128, 129, 200, 300])
+            kind = rng.random()
+            if kind < 0.3:
+                s = rng.sample(range(0, 400), min(n, 400))
+            elif kind < 0.6:
+                s = rng.sample(range(0, 65536), n)
+            else:  # clustered, mixing byte and word gaps
+                s, cur = [], 0
+                for _i in range(n):
+                    cur += rng.choice([1, 1, 2, 3, 254, 255, 256, 257, 300]) if cur < 60000 else 1
+                    s.append(cur)
+                s = [x for x in s if x < 65536]
+            psets.append(sorted(set(s)))
+        for s in psets:
+            b = bytes(TupleVariation.compilePoints(set(s)))
+            dec, pos = TupleVariation.decompilePoints_(70000, b + b"\x55", 0, "gvar")
+            dec = [] if (not s) else list(dec)
+            out.append({"k": "points", "pts": s, "b": list(b), "dec": dec if pos == len(b) else None})
+
+    with _section(out, 'packed deltas'):
+        # ---- packed deltas ----------------------------------------------------
+        dsets = []
+        for kind in ([0], [5, -5, 127, -128], [300, -300, 32767, -32768], [40000, -40000, 2**31 - 1, -(2**31)]):
+            for n in (1, 2, 63, 64, 65, 128, 129):
+                dsets.append([kind[i % len(kind)] for i in range(n)])
+        for _ in range(2500 if thorough else 500):
+            ds = []
+            for _r in range(rng.randint(1, 6)):
+                kind = rng.choice("zbwl")
+                n = rng.choice([1, 1, 2, 3, 4, 10, 63, 64, 65])
+                for _i in range(n):
+                    ds.append({"z": 0, "b": rng.randint(-128, 127), "w": rng.randint(-32768, 32767),
+                               "l": rng.randint(-(2**31), 2**31 - 1)}[kind])
+            dsets.append(ds)
+        for ds in dsets:
+            for opt in (True, False):
+                b = bytes(TupleVariation.compileDeltaValues_(ds, optimizeSize=opt))
+                dec, pos = TupleVariation.decompileDeltas_(len(ds), b, 0)
+                out.append({"k": "deltas", "ds": ds, "b": list(b), "dec": list(dec) if pos == len(b) else None, "opt": opt})
+
+    with _section(out, 'eexec / charstring encryption'):
+        # ---- eexec / charstring encryption ---------------------------------------
+        alpha = [0, 1, 127, 128, 255]
+        strs = [b""] + [bytes([a]) for a in alpha] + [bytes([a, b_]) for a in alpha for b_ in alpha]
+        strs += [bytes([a, b_, c]) for a in alpha for b_ in alpha for c in alpha]
+        strs += [bytes(rng.getrandbits(8) for _ in range(rng.randint(4, 40))) for _ in range(600 if thorough else 150)]
+        for s in strs:
+            for key in (4330, 55665, 0, 65535):
+                c, r2 = eexec.encrypt(s, key)
+                dp, dr = eexec.decrypt(c, key)
+                out.append({"k": "eexec", "p": list(s), "r": key, "c": list(c), "r2": r2, "dp": list(dp), "dr": dr})
+        for s in strs[:200]:
+            h = eexec.hexString(s)
+            out.append({"k": "hex", "b": list(s), "s": codes(h), "back": list(eexec.deHexString(h))})
+
+    with _section(out, 'fixed point <-> shortest decimal text'):
+        # ---- fixed point <-> shortest decimal text --------------------------------
+        f14 = range(-32768, 32768) if thorough else sorted(set(range(-32768, 32768, 5)) | set(range(-600, 600)) | {32767, -32768, 16384, -16384, 8192})
+        for fx in f14:
+            s = fixedTools.fixedToStr(fx, 14)
+            out.append({"k": "fixstr", "fx": fx, "p": 14, "s": codes(s), "back": fixedTools.strToFixed(s, 14)})
+        f16 = {0, 1, -1, 65536, -65536, 0x7FFFFFFF, -0x7FFFFFFF, -0x80000000, 32768, -32768, 98304}
+        f16 |= {(1 << i) for i in range(31)} | {-(1 << i) for i in range(32)} | {(1 << i) - 1 for i in range(1, 31)}
+        for d in range(1, 100):  # values next to decimal ties
+            f16 |= {round(d * 65536 / 100) + k for k in (-1, 0, 1)}
+        f16 |= {rng.randrange(-(2**31), 2**31) for _ in range(20000 if thorough else 4000)}
+        f16 |= {rng.randrange(-(2**18), 2**18) for _ in range(20000 if thorough else 4000)}
+        for fx in sorted(f16):
+            s = fixedTools.fixedToStr(fx, 16)
+            out.append({"k": "fixstr", "fx": fx, "p": 16, "s": codes(s), "back": fixedTools.strToFixed(s, 16)})
+        for p in (6, 2):  # F26Dot6-style and Fixed 30.2-style precisions
+            for fx in list(range(-300, 300)) + [rng.randrange(-(2**20), 2**20) for _ in range(500)]:
+                s = fixedTools.fixedToStr(fx, p)
+                out.append({"k": "fixstr", "fx": fx, "p": p, "s": codes(s), "back": fixedTools.strToFixed(s, p)})
+
+    with _section(out, 'otRound / floatToFixed'):
+        # ---- otRound / floatToFixed ---------------------------------------------
+        for d in (1, 2, 4, 8, 3, 5):
+            for n in range(-60, 61):
+                out.append({"k": "otround", "n": n, "d": d, "v": roundTools.otRound(n / d)})
+        for p in (14, 16):
+            for n in range(-40, 41):
+                for d in (1, 2, 4, 8, 16):  # exactly representable inputs n/d
+                    out.append({"k": "otround", "n": n * (1 << p), "d": d, "v": fixedTools.floatToFixed(n / d, p)})
+            # half-ulp ties: (2k+1)/2^(p+1)
+            for k2 in range(-50, 51):
+                out.append({"k": "otround", "n": 2 * k2 + 1, "d": 2, "v": fixedTools.floatToFixed((2 * k2 + 1) / (1 << (p + 1)), p)})
+
+    with _section(out, 'timestamps'):
+        # ---- timestamps -------------------------------------------------------
+        tvals = {2082844800, 2082844801, 2082844799 + 86400, 2**32 - 1, 3600000000, 3786912000}
+        tvals |= {rng.randrange(2082844800, 2**32) for _ in range(3000 if thorough else 700)}
+        # leap-day and year boundaries
+        import calendar
+        for y in (1972, 1999, 2000, 2001, 2024, 2036, 2038, 2039):
+            for mo, dd in ((1, 1), (2, 28), (2, 29), (3, 1), (12, 31)):
+                try:
+                    tvals.add(calendar.timegm((y, mo, dd, 0, 0, 0)) - timeTools.epoch_diff)
+                    tvals.add(calendar.timegm((y, mo, dd, 23, 59, 59)) - timeTools.epoch_diff)
+                except ValueError:
+                    pass
+        # Domain: values from 1970-01-01 on.  Earlier LONGDATETIME values are treated by the
+        # library as bogus by design (head.decompile re-bases them as Unix timestamps and
+        # timestampToString clamps at the Unix epoch), so they are outside this codec's domain.
+        for v in sorted(tvals):
+            s = timeTools.timestampToString(v)
+            try:
+                back = timeTools.timestampFromString(s)
+            except Exception:
+                back = -1
+            out.append({"k": "time", "days": v // 86400, "secs": v % 86400, "s": codes(s),
+                        "bdays": back // 86400, "bsecs": back % 86400})
+
+    with _section(out, 'table tags'):
+        # ---- table tags ---------------------------------------------------------
+        alpha = "aZ0 /_-~" if not thorough else "aZz09 /_-~(@"
+        tags = set()
+        for a in alpha:
+            for b_ in alpha:
+                for c in alpha:
+                    for d in alpha:
+                        tags.add(a + b_ + c + d)
+        tags |= {"glyf", "cvt ", "OS/2", "CFF ", "SVG ", "GSUB", "head", "CFF2", "fpgm", "TSI0", "Zapf", "a   ", "A   ", "9   ", "    "}
+        for _ in range(2000 if thorough else 500):
+            tags.add("".join(chr(rng.randint(0x20, 0x7E)) for _ in range(4)))
+        for t in sorted(tags):
+            ident = ttFont.tagToIdentifier(t)
+            try:
+                back = str(ttFont.identifierToTag(ident))
+            except Exception:
+                back = ""
+            out.append({"k": "tag", "tag": codes(t), "ident": codes(ident), "back": codes(back)})
+            x = ttFont.tagToXML(t)
+            try:
+                backx = str(ttFont.xmlToTag(x))
+            except Exception:
+                backx = ""
+            out.append({"k": "xmltag", "tag": codes(t), "xml": codes(x), "back": codes(backx)})
+
+    with _section(out, 'IFT sparse bit set'):
+        # ---- IFT sparse bit set -------------------------------------------------
+        sets = [[], [0], [40], list(range(41)), list(range(0, 41, 2)), [0, 1, 2, 3], list(range(8)), list(range(32)), list(range(64)),
+                [31, 32], [7, 8], [1023], list(range(1024)), [0, 1023], list(range(16, 32)), [65535], [2**20], list(range(256, 512))]
+        for _ in range(3000 if thorough else 600):
+            universe = rng.choice([8, 16, 41, 41, 41, 64, 300, 5000])
+            dens = rng.random()
+            s = [v for v in range(universe) if rng.random() < dens] if universe <= 300 else rng.sample(range(universe), rng.randint(1, 40))
+            sets.append(sorted(s))
+        for s in sets:
+            b = sbs.encode(s)
+            dset, used = sbs.decode(b + b"\x55\x55\x55\x55"[: 0])
+            out.append({"k": "sbs", "vals": s, "b": list(b), "dec": sorted(dset) if used == len(b) else None})
+
+    with _section(out, 'sstruct'):
+        # ---- sstruct ------------------------------------------------------------
+        fmt = """
+            > # big endian
+            a: b
+            bb: B
+            x
+            c: h
+            d: H
+            e: l
+            f: L
+            g: 16.16F
+            h: 2.14F
+        """
+        tfmt = ["b", "B", "x", "h", "H", "l", "L", "l", "h"]
+        for _ in range(600 if thorough else 150):
+            g = rng.randrange(-(2**31), 2**31)
+            h = rng.randrange(-32768, 32768)
+            f_ = rng.getrandbits(32)
+            obj = {"a": rng.randint(-128, 127), "bb": rng.randint(0, 255), "c": rng.randint(-32768, 32767), "d": rng.randint(0, 65535),
+                   "e": rng.randrange(-(2**31), 2**31), "f": f_, "g": g / 65536, "h": h / 16384}
+            b = sstruct.pack(fmt, obj)
+            back = sstruct.unpack(fmt, b)
+            vals = [obj["a"], obj["bb"], obj["c"], obj["d"], obj["e"], list(limbs(f_)), g, h]
+            dec = [back["a"], back["bb"], back["c"], back["d"], back["e"], list(limbs(back["f"])),
+                   fixedTools.floatToFixed(back["g"], 16), fixedTools.floatToFixed(back["h"], 14)]
+            out.append({"k": "struct", "fmt": tfmt, "vals": vals, "b": list(b), "dec": dec})
+
+    with _section(out, 'Adobe glyph list'):
+        # ---- Adobe glyph list ----------------------------------------------------
+        uvs = sorted(agl.UV2AGL)
+        for u in (uvs if thorough else uvs[:: 3]):
+            name = agl.UV2AGL[u]
+            r = agl.toUnicode(name)
+            out.append({"k": "agl", "u": u, "name": codes("x"), "back": ord(r) if len(r) == 1 else -1})
+        for u in [0x20, 0x41, 0xD7FF, 0xE000, 0xFFFF, 0x1234, 0xABCD] + [rng.randrange(0, 0xD800) for _ in range(100)]:
+            name = "uni%04X" % u
             r = agl.toUnicode(name)
             out.append({"k": "agl", "u": u, "name": codes(name), "back": ord(r) if len(r) == 1 else -1})
+        for u in [0x10000, 0x10FFFF, 0x1F600, 0xE000, 0xABCD, 0x0041] + [rng.randrange(0x10000, 0x110000) for _ in range(100)]:
+            for f_ in ("u%04X", "u%05X", "u%06X"):
+                name = f_ % u
+                if len(name) > 7:
+                    continue
+                r = agl.toUnicode(name)
+                out.append({"k": "agl", "u": u, "name": codes(name), "back": ord(r) if len(r) == 1 else -1})
     return out
 
 
@@ -360,17 +399,26 @@ def run(chk):
     r = chk.tlc("MC_Codec", label="MC_Codec", timeout=900)
     chk.log("MC_Codec: %d states" % r.distinct)
     cases = gen_cases(chk)
+    for i, t in enumerate(cases):
+        # a None field means the real decoder did not consume exactly the bytes the real encoder emitted: the pair is
+        # not inverse on that value; JSON null cannot travel to TLC, so it goes as a refused `raised` event
+        if any(v is None for v in t.values()):
+            cases[i] = {"k": "raised", "codec": "%s (real decoder stopped short of / ran past the encoder's bytes)" % t["k"],
+                        "err": "length", "where": str({k: v for k, v in t.items() if not isinstance(v, list) or len(v) < 20})[:200]}
     chk.count(len(cases))
     for t in cases:
         enc = t.get("b") or t.get("s") or t.get("c") or t.get("ident") or t.get("xml") or t.get("name") or []
-        if t["k"] == "otround" or len(enc) > 1:
+        if t["k"] == "raised":
+            chk.nontriv(("raised", t["codec"]))
+        elif t["k"] == "otround" or len(enc) > 1:
             chk.nontriv((t["k"], str({k: v for k, v in t.items() if k in ("v", "fx", "m", "e", "hi", "lo", "pts", "ds", "p", "r", "tag", "vals", "days", "secs", "u", "n", "d", "fmt", "opt")})))
     kinds = {}
     for t in cases:
         kinds[t["k"]] = kinds.get(t["k"], 0) + 1
     chk.notes["cases_per_codec"] = kinds
     for k in kinds:
-        chk.sample(describe(next(t for t in cases if t["k"] == k and len(t.get("b", t.get("s", [1, 2]))) > 1)), limit=30)
+        if k != "raised":
+            chk.sample(describe(next(t for t in cases if t["k"] == k and len(t.get("b", t.get("s", [1, 2]))) > 1)), limit=30)
     chk.log("generated %d cases over %d codecs" % (len(cases), len(kinds)))
     rej = judge(chk, cases)
     for t, clause in rej:
